@@ -4,22 +4,18 @@ From ATS Require Import Prelude Dec DecFacts Uuid Semver Types Contract Tactics 
   BidFacts InvBid.
 Ltac Zify.zify_post_hook ::= Z.div_mod_to_equations.
 
-(* the products formed by this request are exact (class K_inexact excluded by name) and, for a match, the fee due
-   grows with the amount spent *)
+(* side condition of a step outside the known classes: only a match has one (its size need not be a lot multiple):
+   the products it forms are exact (class K_inexact excluded by name) and the fee due grows with the amount spent.
+   Creating, rejecting, cancelling, expiring, approving and configuring need no side condition: lot-multiple
+   products are always exact (ExactFacts.lot_product_exact). *)
 Definition clean_exec (st : state) (m : emsg) : Prop :=
   match m with
-  | CreateBid id base fee price quote qsize size =>
-    forall c p total, st_cfg st = Some c -> valid_price price (cf_precision c) = Ok p -> mul_size p size = Ok total ->
-                      exact_at p size total
-  | RejectBid id (Some s) =>
-    forall b p tq, lookup id (st_bids st) = Some (SlotV3 b) -> dec_parse (b_price b) = Some p ->
-                   mul_size p s = Ok tq -> exact_at p s tq
   | ExecuteMatch _ bid_id price size => clean_match st bid_id price size
   | _ => True
   end.
 
 Lemma InvB_asks_only st st' : st_cfg st' = st_cfg st -> st_bids st' = st_bids st -> InvB st -> InvB st'.
-Proof. intros Hc Hb [H1 H2]. constructor; rewrite ?Hc, ?Hb; auto. Qed.
+Proof. intros Hc Hb [H1 H2 H3]. constructor; rewrite ?Hc, ?Hb; auto. Qed.
 
 Theorem Inv_step e st sender funds m st' r :
   Inv st -> clean_exec st m -> execute FX e st sender funds m = Ok (st', r) -> Inv st'.
@@ -28,14 +24,14 @@ Proof.
   pose proof H as H0. unfold execute in H. guard_inv H Hv. destruct m; cbn [validate_exec clean_exec] in *.
   - apply approve_ask_inv in H as (c & a & _ & _ & _ & _ & _ & _ & _ & -> & _). apply InvB_set_asks. exact HB.
   - apply cancel_ask_inv in H as (a & _ & _ & _ & -> & _). apply InvB_set_asks. exact HB.
-  - eapply InvB_reverse_bid; eauto. intros b p s tq _ _ Hx. discriminate.
+  - eapply InvB_reverse_bid; eauto.
   - apply create_ask_iff in H as (c & _ & _ & -> & _). apply InvB_set_asks. exact HB.
   - repeat (apply andb_prop in Hv as [Hv ?]). eapply InvB_create_bid; eauto; apply N.leb_le; assumption.
   - repeat (apply andb_prop in Hv as [Hv ?]). eapply InvB_execute_match; eauto. apply N.leb_le. assumption.
   - apply reverse_ask_inv in H as (c & a & eff & _ & _ & _ & _ & _ & _ & _ & -> & _). apply InvB_set_asks. exact HB.
-  - eapply InvB_reverse_bid; eauto. intros b p s tq _ _ Hx. discriminate.
+  - eapply InvB_reverse_bid; eauto.
   - apply reverse_ask_inv in H as (c & a & eff & _ & _ & _ & _ & _ & _ & _ & -> & _). apply InvB_set_asks. exact HB.
-  - eapply InvB_reverse_bid; eauto. intros b p s tq Hl Hp Hs Hm. subst size. eapply Hclean; eauto.
+  - eapply InvB_reverse_bid; eauto.
   - apply Inv_modify in H0 as [_ HBB]. auto.
 Qed.
 
@@ -58,7 +54,7 @@ Qed.
 Lemma Inv_init e m st0 r : env_version_ok e -> instantiate e empty_state m = Ok (st0, r) -> Inv st0.
 Proof.
   intros He H. split; [eapply InvA_init; eauto|]. apply instantiate_stored in H as [-> _].
-  constructor; cbn; [intros c k s _ Hx; discriminate|constructor].
+  constructor; cbn; [intros c k s _ Hx; discriminate|constructor|intros c k b p _ Hx; discriminate].
 Qed.
 
 Theorem Inv_reachable e m st0 r evs :
